@@ -167,11 +167,13 @@ def mktmp():
 PARTS = {
     "C02": ["c02", "c02b"],
     "C03": ["c03", "c03b"],
+    "C04": ["c04", "c04b"],
     "C10": ["c10", "c10b", "c10c"],
+    "C11": ["c11", "c11b"],
     "C13": ["c13", "c13b"],
     "C14": ["c14", "c14b"],
     "C15": ["c15", "c15b"],
-    "C16": ["c16", "c16b", "c16c"],
+    "C16": ["c16", "c16b", "c16c", "c16d"],
     "C17": ["c17", "c17b"],
     "C18": ["c18", "c18b", "c18c"],
 }
